@@ -105,6 +105,19 @@ PROPS = {
         'explanation': 'The reader driver lemma is stated for an ARBITRARY transmitted addition count k (read from the input) against the local count m: additions j < min(k, m) report bit j of the '
                        'transmitted bitmap, additions j >= k are absent, the cursor moves past all k bitmap bits; without the extension bit every addition is absent. Unbounded in counts and shapes.',
     },
+    'C15': {
+        'verus': [{'spec': 'inttype.spec'}],
+        'kani_quick': [('inttype_fixed_both_bounds', 300, True), ('inttype_extensible', 300, True)],
+        'assumptions': [
+            'claimed for constraints with a given lower bound (KF-C15-min carve-out: an absent lower bound is a recorded known finding)',
+            'the generated *_min/*_max accessors print the Range stored in the RustType (text emission of generate/rust.rs, not under contract); the stored Range is proved equal to the declared bounds',
+            '`<Resolved as ResolveState>::RangeType` resolved to i64 (rule R18, checked against resolve.rs on every run); impl Model<Rust> header replaced by a unit struct',
+        ],
+        'trusted_base': COMMON_TRUSTED + KANI_TRUSTED + ['assume_specification: i64::abs', 'R8: parameter `int` alpha-renamed (Verus keyword)'],
+        'explanation': 'asn_fixed_integer_to_rust_type and asn_extensible_integer_to_rust (the real functions with the real RustType/Range/Integer definitions) are verified for ALL (min, max): '
+                       '(a) every permitted value is representable, (b) no narrower type of that signedness fits both bounds, (c) the stored range equals the declared bounds (every `as` cast is '
+                       'proved lossless), (d) extensible ranges map to 64-bit types, signed iff the lower bound is negative. Loop free, complete. Kani re-checks (a), (b), (d) on the compiled code through the hook.',
+    },
     'C20': {
         'kani_quick': [('der_length_roundtrip', 300, True), ('der_identifier_roundtrip', 300, True), ('der_boolean', 300, True),
                        ('der_integer_i64_roundtrip', 300, True), ('der_integer_u64_roundtrip', 300, True), ('der_readers_total', 300, True)],
